@@ -165,7 +165,7 @@ type RaceReport struct {
 	Text     string `json:"text"`
 }
 
-var reRaceFn = regexp.MustCompile(`^\s+([^\s(]+)\(`)
+var reRaceFn = regexp.MustCompile(`^\s+(\S+)\(\)\s*$`)
 
 func parseRaceLogs(dir string) []RaceReport {
 	files, _ := filepath.Glob(filepath.Join(dir, "*", "race.*"))
